@@ -1113,6 +1113,62 @@ fn live_probes(out: &mut Out)
     }
 }
 
+fn string_of(r: ffi::CResult) -> Option<String>
+{
+    let rr = raw(r);
+    let v = if rr.restype == 2 && !rr.data.is_null() { Some(unsafe { std::ffi::CStr::from_ptr(rr.data as *const c_char) }.to_string_lossy().into_owned()) } else { None };
+    ffi::result_free(unraw(rr));
+    v
+}
+
+/// Exports of a circuit whose gates were added through the C interface with POINTER-valued parameters must read exactly
+/// like the exports of the Rust circuit holding the pointed-to values as direct parameters (same digits, same format).
+fn export_probes(out: &mut Out)
+{
+    let names: [(&str, usize, bool); 9] = [("rx", 1, false), ("ry", 1, false), ("rz", 1, false), ("u1", 1, false), ("u2", 2, false), ("u3", 3, false),
+        ("crx", 1, true), ("cry", 1, true), ("crz", 1, true)];
+    let values = [0.5f64, 0.7853981633974483, -2.25, 1e-7, 12.566370614359172];
+    for (name, k, controlled) in names.iter()
+    {
+        for (vi, _) in values.iter().enumerate()
+        {
+            for mask in 1u32..(1 << k)
+            {
+                let vals: Vec<f64> = (0..*k).map(|j| values[(vi + j) % values.len()]).collect();
+                let cells: Box<[f64; 3]> = Box::new([0.0; 3]);
+                let cp = Box::into_raw(cells);
+                for j in 0..*k { unsafe { (*cp)[j] = vals[j]; } }
+                let isref = |j: usize| (mask >> j) & 1 == 1;
+                let c = ffi::circuit_new(2, 2);
+                let cname = std::ffi::CString::new(*name).unwrap();
+                let q1 = [1usize]; let q01 = [0usize, 1usize];
+                let qs: &[usize] = if *controlled { &q01 } else { &q1 };
+                let rp: Vec<RawParam> = (0..*k).map(|j| if isref(j) { RawParam { value: 0.0, value_ptr: unsafe { &(*cp)[j] as *const f64 } } }
+                    else { RawParam { value: vals[j], value_ptr: std::ptr::null() } }).collect();
+                ffi::result_free(ffi::circuit_add_gate(c, cname.as_ptr(), qs.as_ptr(), qs.len(), cparams(&rp), rp.len()));
+                let got = [string_of(ffi::circuit_latex(c)), string_of(ffi::circuit_open_qasm(c)), string_of(ffi::circuit_c_qasm(c))];
+                ffi::circuit_free(c);
+                unsafe { drop(Box::from_raw(cp)); }
+                let reference = pcatch(|| {
+                    let mut r = Circuit::new(2, 2);
+                    let ps: Vec<Parameter> = vals.iter().map(|v| Parameter::Direct(*v)).collect();
+                    let l = name.to_string();
+                    with_gate!(l.as_str(), ps, |g| r.add_gate(g, qs)).unwrap();
+                    [r.latex().ok(), r.open_qasm().ok(), r.c_qasm().ok()]
+                });
+                let verdict = match reference
+                {
+                    Some(e) => { let which = ["latex", "openqasm", "cqasm"];
+                        match (0..3).find(|i| got[*i] != e[*i]) { None => "same".to_string(),
+                            Some(i) => format!("differs {} ffi={:?} reference={:?}", which[i], got[i].as_ref().map(|s| s.replace('\n', "|")), e[i].as_ref().map(|s| s.replace('\n', "|"))) } },
+                    None => "reference-panicked".to_string()
+                };
+                out.case(&format!("live-export {} mask={} values={}", name, mask, vals.iter().map(|v| fbits(*v)).collect::<Vec<_>>().join(",")), &verdict);
+            }
+        }
+    }
+}
+
 // ------------------------------------------------------------------------------------------------
 
 fn warm_up()
@@ -1162,7 +1218,7 @@ fn main()
                 out.case(&req, &c.ans.join(" ; "));
                 if EV_OVERFLOW.load(Ordering::Relaxed) { eprintln!("event log overflow in case {}", id); std::process::exit(3); }
             }
-            if first == 0 { LOGGING.store(false, Ordering::Relaxed); live_probes(&mut out); }
+            if first == 0 { LOGGING.store(false, Ordering::Relaxed); live_probes(&mut out); export_probes(&mut out); }
             let n = out.finish();
             prog.seek(SeekFrom::Start(0)).unwrap();
             write!(prog, "{:>12}\n", "done").unwrap();
